@@ -79,7 +79,7 @@ def _make_class(spec, fault, log, role):
     return Sim
 
 
-def run_with_fault(name, fault, watchdog=5, debug=False):
+def run_with_fault(name, fault, watchdog=5, debug=False, cache=True):
     import sys
     import types
     import mosaik
@@ -92,7 +92,7 @@ def run_with_fault(name, fault, watchdog=5, debug=False):
         setattr(mod, r, _make_class(spec, fault, log, r))
         cfg[r] = {"python": f"_c14_sims:{r}"}
     sys.modules["_c14_sims"] = mod
-    world = mosaik.World(cfg, skip_greetings=True, debug=debug)
+    world = mosaik.World(cfg, skip_greetings=True, debug=debug, cache=cache)
     message = ""
 
     def on_alarm(*a):
@@ -452,19 +452,19 @@ def bounded_reply_validation(tier, seed):
                 if spec["type"] != "time-based":
                     kinds.append("bad_output_time")
                 for kind in kinds:
-                    for debug in (False, True):
+                    for debug, cache in ((False, True), (True, True), (False, False)):
                         method = "get_data" if kind == "bad_output_time" else "step"
                         fault = {"role": role, "method": method, "index": k, "kind": kind}
                         cases += 1
-                        r = run_with_fault(name, fault, debug=debug)
+                        r = run_with_fault(name, fault, debug=debug, cache=cache)
                         if not any(e[0] == "fault" for e in r["log"]):
                             continue
                         nontrivial += 1
                         ok = r["outcome"] == "error SimulationError" and f"{role}-0" in r["message"]
                         if not ok:
-                            failures.append({"desc": f"{name}, debug={debug}: {role} answers its {method} #{k} with an API violation ({kind}): run() "
+                            failures.append({"desc": f"{name}, debug={debug}, cache={cache}: {role} answers its {method} #{k} with an API violation ({kind}): run() "
                                                      f"{r['outcome']} {('(' + r['message'][:80] + ')') if r['message'] else ''} instead of a "
-                                                     f"SimulationError naming {role}-0", "case": {"scenario": name, "debug": debug, **fault}})
+                                                     f"SimulationError naming {role}-0", "case": {"scenario": name, "debug": debug, "cache": cache, **fault}})
                             if len(failures) >= 5:
                                 break
     # a simulator that announces its type with another capitalisation and, treated as time-based, violates the API (no next step):
@@ -476,4 +476,4 @@ def bounded_reply_validation(tier, seed):
         if r not in ("rejected at start", "error SimulationError"):
             failures.append({"desc": f"a simulator announcing type {typ!r} whose step() returns no next step: {r}", "case": {"type": typ}})
     return {"bound": f"scenarios {names} x every simulator x step / get_data #0, #1 x (next step same / earlier / float / string; output time before "
-                     "the step time) x debug off / on; plus the type announced as Time-based / TIME-BASED / time-based with a missing next step", "cases": cases, "nontrivial": nontrivial, "failures": failures[:5]}
+                     "the step time) x (debug off / on with the cache, cache off); plus the type announced as Time-based / TIME-BASED / time-based with a missing next step", "cases": cases, "nontrivial": nontrivial, "failures": failures[:5]}
